@@ -468,6 +468,17 @@ def run(tier, seed):
                 cases.q("resolve", p, nme); cases.q("isimported", p, nme)
         r.nontrivial.add((kind, tuple(sorted(files.items()))))
         r.stats.setdefault("cyclic_cases", {}); r.stats["cyclic_cases"][kind] = r.stats["cyclic_cases"].get(kind, 0) + 1
+    # (C') the cache under PRESSURE: more than MAX_FILE_CACHE_SIZE files analysed one after the other - the eviction
+    # that the next analysis triggers walks file_cache and removes from it (and from four other maps) in the same call
+    cases.case("pressure", {"kind": "eviction under pressure"})
+    cases.text("c", FIX % "foo"); cases.raw("disk conftest.py c"); cases.op("analyze", "conftest.py", "c")
+    cases.text("tf", "def test_filler(foo):\n    pass\n")
+    for i in range(2060):
+        fp = "fill/d%02d/test_f%04d.py" % (i % 40, i)
+        cases.raw("disk %s tf" % fp)
+        cases.op("analyze", fp, "tf")
+    cases.op("evictsync", "conftest.py", "fill/d00/test_f0000.py")
+    cases.q("avail", "fill/d00/test_f0000.py"); cases.q("resolve", "fill/d01/test_f0001.py", "foo")
     ia, ma, sp = r.run_cases(cases)
     if r.abort_at:
         (k, st) = r.abort_at
